@@ -95,6 +95,9 @@ def main():
         j = int(args[1])
         args = args[2:]
     ids = args or sorted(x for x in os.listdir(os.path.join(ROOT, "seeded")) if os.path.exists(os.path.join(ROOT, "seeded", x, "meta.json")))
+    # a change that a later repair of /repo made behaviour-preserving (its own demo no longer discriminates) stays in the
+    # corpus as history but is not part of the regression
+    ids = [i for i in ids if not json.load(open(os.path.join(ROOT, "seeded", i, "meta.json"))).get("obsolete_after")]
     with cf.ThreadPoolExecutor(max_workers=j) as ex:
         oks = list(ex.map(one, ids))
     print("seeds: %d, still caught: %d" % (len(ids), sum(oks)))
